@@ -149,6 +149,12 @@ func init() {
 			for _, c := range limitServed(configsFor(tier, seed+2, 14, 64), 2, seed) {
 				jobs = append(jobs, Job{Variant: "plain", Mode: "db.c02", Args: js(map[string]interface{}{"Cfg": c, "Histories": hist, "NOps": ops, "MaxVal": 20000, "BigPct": 20, "MaintPct": 22, "Restart": true, "Variants": variants, "FullCheckEvery": 0})})
 			}
+			if tier == "thorough" {
+				// restart at EVERY position of short histories
+				for _, c := range limitServed(configsFor(tier, seed+7, 16, 16), 1, seed+7) {
+					jobs = append(jobs, Job{Variant: "plain", Mode: "db.c02", Args: js(map[string]interface{}{"Cfg": c, "Histories": 4, "NOps": 36, "MaxVal": 3000, "BigPct": 10, "MaintPct": 15, "Restart": false, "Variants": "sample", "PosSweep": true})})
+				}
+			}
 			sched, nsched, nrace := 30, 3, 1
 			if tier == "thorough" {
 				sched, nsched, nrace = 150, 12, 4
@@ -319,12 +325,12 @@ func init() {
 		Keep:        func(sig string) bool { return !strings.HasPrefix(sig, "c11:") },
 		Plan: func(tier string, seed uint64) []Job {
 			var jobs []Job
-			n, attrib, mutated := 8, 350, 150
+			n, attrib, mutated, cuts := 8, 350, 150, 3
 			if tier == "thorough" {
-				n, attrib, mutated = 28, 5000, 3000
+				n, attrib, mutated, cuts = 28, 5000, 3000, 40
 			}
 			for i := 0; i < n; i++ {
-				jobs = append(jobs, Job{Variant: "plain", Mode: "db.proto", Args: js(map[string]interface{}{"Cfg": protoCfg(i), "Prop": "c12", "Streams": 3, "Cmds": 40, "Mutated": mutated, "Attrib": attrib, "Conns": 8})})
+				jobs = append(jobs, Job{Variant: "plain", Mode: "db.proto", Args: js(map[string]interface{}{"Cfg": protoCfg(i), "Prop": "c12", "Streams": 3, "Cmds": 40, "Mutated": mutated, "Attrib": attrib, "Conns": 8, "CutSweeps": cuts})})
 			}
 			jobs = append(jobs, Job{Variant: "race", Mode: "db.proto", Args: js(map[string]interface{}{"Cfg": protoCfg(2), "Prop": "c12", "Streams": 3, "Cmds": 60, "Mutated": 30, "Attrib": 80, "Conns": 8})})
 			jobs = append(jobs, Job{Variant: "asan", Mode: "db.proto", Args: js(map[string]interface{}{"Cfg": protoCfg(2), "Prop": "c12", "Streams": 3, "Cmds": 60, "Mutated": 60, "Attrib": 150, "Conns": 8})})
